@@ -38,6 +38,22 @@ Theorem C10_page_aligned_alloc : forall s length_blk mx, Inv s -> WF s -> 0 < le
 Proof. exact blk_allocate_aligned_spec. Qed.
 Print Assumptions C10_page_aligned_alloc.
 
+(* IWFSM_SOLID_ALLOCATED_SPACE: every state, every flag combination, over-allocation and bitmap growth included (no
+   _partial here): the whole RETURNED region [a, a+l) lies inside the file.  The two hypotheses on a + l exclude the
+   64-bit wrap of the size computation (they hold for < 2^32 blocks of < 2^31 bytes). *)
+Theorem C10_solid_backed : forall s len addr opts ovr, WF s ->
+  has opts IWFSM_SOLID_ALLOCATED_SPACE = true ->
+  let '(rc, s', a, l) := allocate s len addr opts ovr in
+  rc = 0 -> 0 <= a + l -> a + l + aunit s < 2 ^ 64 -> a + l <= fsize s' /\ bpow s' = bpow s /\ aunit s' = aunit s.
+Proof. exact allocate_solid_backed. Qed.
+Print Assumptions C10_solid_backed.
+(* ... on a history where the over-allocated tail starts a new page behind the end of the file: 60 blocks asked, 64 returned
+   at 16640, file 8192 -> 24576 (corpus/C10/solid-overalloc-beyond-eof.txt is the same script on the implementation) *)
+Example C10_solid_backed_overallocated : WF solid_witness_state /\ fsize solid_witness_state = 8192 /\
+  (let '(rc, s', a, l) := allocate solid_witness_state 3840 0 IWFSM_SOLID_ALLOCATED_SPACE true in (rc, a, l, fsize s'))
+  = (0, 16640, 4096, 24576).
+Proof. exact solid_witness. Qed.
+
 Theorem C10_release_exact : forall s addr len, Good s ->
   live_range s (shr addr (bpow s)) (shr len (bpow s)) ->
   let '(rc, s') := deallocate s addr len in
